@@ -61,7 +61,7 @@ def snapshot(root):
             p = os.path.join(dirpath, fn)
             rel = os.path.relpath(p, root)
             if os.path.islink(p):
-                snap[rel] = (None, 0, os.readlink(p))
+                snap[rel] = (None, os.lstat(p).st_mtime_ns, os.readlink(p))
                 continue
             with open(p, "rb") as fh:
                 data = fh.read()
@@ -79,9 +79,11 @@ def restore(root, snap):
     for rel, (data, mt, link) in snap.items():
         p = os.path.join(root, rel)
         if link is not None:
-            if os.path.lexists(p):
-                os.unlink(p)
-            os.symlink(link, p)
+            if not (os.path.islink(p) and os.readlink(p) == link):
+                if os.path.lexists(p):
+                    os.unlink(p)
+                os.symlink(link, p)
+            os.utime(p, ns=(mt, mt), follow_symlinks=False)
             continue
         cur = None
         try:
